@@ -372,10 +372,13 @@ class Unit:
                 fnpath = re.findall(r'"([^"]*)"', arg)[0]
                 kv = dict(x.split("=", 1) for x in arg.split('"')[-1].split())
                 item = {"kind": "expr", "rel": rel, "name": fnpath, "sel": kv, "where": where, "clauses": [], "sigtext": None,
-                        "impl": kv.get("impl"), "proof": "", "safety": None, "external": False}
+                        "impl": kv.get("impl"), "proof": "", "safety": None, "external": False, "callmap": []}
                 self.items.append(item)
                 loop = None
                 sub = None
+            elif name == "subst":
+                a, b = re.findall(r'"([^"]*)"', full)
+                item.setdefault("substs", []).append((a, b))
             elif name == "sigtext":
                 item["sigtext"] = full
             elif name == "proof":
@@ -596,7 +599,10 @@ class Gen:
             if "assign" in sel and n["k"] == "Assign" and norm(src.text(kid(n, "left"))) == norm(sel["assign"]):
                 hits.append(kid(n, "right"))
             if "let" in sel and n["k"] == "Local" and kid(n, "pat")["a"].get("ident") == sel["let"] and kid(n, "init") is not None:
-                hits.append(kid(n, "init"))
+                init = kid(n, "init")
+                if sel.get("closure_body") and init["k"] == "Closure" and not kids(init, "input"):
+                    init = kid(init, "body")
+                hits.append(init)
         if len(hits) != 1:
             raise Inconclusive(f"lost anchor: @expr {sel} in {it['name']} ({src.rel}): {len(hits)} candidates")
         e = hits[0]
@@ -606,9 +612,14 @@ class Gen:
         if it["impl"]:
             self.emit(f"impl {it['impl']} {{\n", ("glue",))
         self.emit(f"// expression extracted from {src.rel}:{src.line_of(e['s'])} (enclosing fn {it['name']} is out of the verifier's reach)\n", ("glue",))
-        self.emit(it["sigtext"] + "\n", ("glue",))
+        sigtext = it["sigtext"]
+        clauses = list(it["clauses"])
+        if self.vac:
+            sigtext = re.sub(r"\bfn\s+(\w+)", lambda m: "fn " + m.group(1) + "__vac", sigtext, count=1)
+            clauses.append(Clause("ensures", "__vacuity." + it["name"] + str(it["sel"]), self.unit.props, [], "false", "vacuity"))
+        self.emit(sigtext + "\n", ("glue",))
         for kind in ("requires", "ensures"):
-            cs = [c for c in it["clauses"] if c.kind == kind and c.active(self.prop)]
+            cs = [c for c in clauses if c.kind == kind and c.active(self.prop)]
             if cs:
                 self.emit(f"    {kind}\n", ("glue",))
                 for c in cs:
@@ -616,11 +627,33 @@ class Gen:
                     self.emit("        " + c.text + ",\n", ("clause", c.id))
         self.emit("{\n    let __r = ", ("glue",))
         ed = Edits(src, e["s"], e["e"])
+        pseudo = {"name": it["name"], "loops": {}, "opts": [], "closurefns": {}, "letty": {}, "callmap": it.get("callmap", []), "arounds": [], "ats": [],
+                  "external": True, "genfns": {}, "binops": []}
+        self.rewrite_body(pseudo, src, fn, e, ed)
+        for a, b in it.get("substs", []):
+            t = src.text(e)
+            k = t.count(a)
+            if k == 0:
+                raise Inconclusive(f"lost anchor: @expr {it['name']}: `{a}` not in the expression")
+            off = 0
+            for _ in range(k):
+                i = t.index(a, off)
+                ed.replace(e["s"] + len(t[:i].encode()), e["s"] + len(t[:i].encode()) + len(a.encode()), b, ("rule", "subst"))
+                off = i + len(a)
         for seg in ed.segments():
             self.emit(*seg)
+        for text, origin in getattr(self, "_pending_global", []):
+            self._late = getattr(self, "_late", []) + [(text, origin)]
+        self._pending_global = []
         self.emit(";\n    " + it["proof"] + "\n    __r\n}\n", ("glue",))
         if it["impl"]:
             self.emit("}\n", ("glue",))
+        for text, origin in getattr(self, "_late", []):
+            self.emit(text, origin)
+        self._late = []
+        for text, origin in getattr(self, "_pending", []):
+            self.emit(text, origin)
+        self._pending = []
         self.fn_segs.append((i0, len(self.segs), it))
 
     # ---- functions --------------------------------------------------------------------------
@@ -1619,6 +1652,12 @@ class Gen:
                 self.emit_trait(it)
             elif it["kind"] == "expr":
                 self.emit_expr(it)
+                if self.vacuity:
+                    self.vac = True
+                    try:
+                        self.emit_expr(it)
+                    finally:
+                        self.vac = False
             elif it["kind"] == "fn":
                 only = [o[5:].split(",") for o in it["opts"] if o.startswith("only=")]
                 if only and self.prop is not None and self.prop not in only[0]:
